@@ -179,24 +179,26 @@ func (net *Network) AddLink(l geom.LineString, speed float64) {
 
 // Weight returns the weight associated with this edge.
 // It is not intended for direct use in this package.
-func (net *Network) Weight(e graph.Edge) float64 {
-	if n, ok := net.neighbors[e.From().ID()]; ok {
-		if we, ok := n[e.To().ID()]; ok {
+// Weight returns the cost of the link between the nodes with IDs xid and yid,
+// as required by gonum's path.Weighted interface (without it the search would
+// treat every link as having a cost of 1).
+func (net Network) Weight(xid, yid int64) (w float64, ok bool) {
+	if xid == yid {
+		return 0, net.Has(xid)
+	}
+	if n, ok := net.neighbors[xid]; ok {
+		if we, ok := n[yid]; ok {
 			switch net.minimizeOption {
-			// If we're optimizing by time, return use the minimum speed to
-			// calculate the time to ensure the heuristic is less than the actual
-			// value
 			case Time:
-				return we.time
+				return we.time, true
 			case Distance:
-				// If we're optimizing by distance, just return the distance.
-				return we.length
+				return we.length, true
 			default:
 				panic(fmt.Errorf("Invalid MinimizeOption %v", net.minimizeOption))
 			}
 		}
 	}
-	panic("route: attempting to find an edge that is not in the graph")
+	return math.Inf(1), false
 }
 
 type edge struct {
